@@ -1844,6 +1844,10 @@ func extractDatumOffsets(datumArrayData []byte, baseOffset uint32, result map[Bl
 		return
 	}
 
+	// Conway encodes sets as tag 258 around the array: step over tag headers
+	datumArrayData, tagSize := cborSkipTags(datumArrayData)
+	baseOffset += tagSize
+
 	// Get array info from header
 	count, headerSize, indefinite := cborArrayInfo(datumArrayData)
 	if count < 0 && !indefinite {
@@ -2098,14 +2102,16 @@ func extractScriptArrayOffsets(scriptArrayData []byte, baseOffset uint32, script
 	}
 
 	// Determine header size based on actual encoding
+	// Conway encodes sets as tag 258 around the array: step over tag headers
 	// 0x9f indicates indefinite-length array (header = 1 byte)
+	arrayData, tagSize := cborSkipTags(scriptArrayData)
 	var arrayHeaderSize uint32
-	if scriptArrayData[0] == 0x9f {
+	if len(arrayData) > 0 && arrayData[0] == 0x9f {
 		arrayHeaderSize = 1
 	} else {
-		_, arrayHeaderSize, _ = cborArrayInfo(scriptArrayData)
+		_, arrayHeaderSize, _ = cborArrayInfo(arrayData)
 	}
-	pos := arrayHeaderSize
+	pos := tagSize + arrayHeaderSize
 
 	for _, scriptRaw := range scripts {
 		scriptBytes := []byte(scriptRaw)
@@ -2231,6 +2237,36 @@ func cborMapInfo(data []byte) (int, uint32, bool) {
 	default:
 		return -1, 0, false
 	}
+}
+
+// cborSkipTags steps over any CBOR tag headers (major type 6) that data starts
+// with, e.g. the tag 258 that Conway puts around sets. It returns the remaining
+// data (starting at the tagged item) and the number of bytes skipped.
+func cborSkipTags(data []byte) ([]byte, uint32) {
+	var skipped uint32
+	for len(data) > 0 && data[0]&0xe0 == 0xc0 {
+		var size int
+		switch additional := data[0] & 0x1f; {
+		case additional <= 23:
+			size = 1
+		case additional == 24:
+			size = 2
+		case additional == 25:
+			size = 3
+		case additional == 26:
+			size = 5
+		case additional == 27:
+			size = 9
+		default:
+			return data, skipped
+		}
+		if len(data) < size {
+			return data, skipped
+		}
+		data = data[size:]
+		skipped += uint32(size) // #nosec G115 -- at most 9
+	}
+	return data, skipped
 }
 
 // cborArrayHeaderSizeOf returns the size of the array header that data
